@@ -223,16 +223,18 @@ def _bits_meaning(sv, tv, ev, db, depth=0):
 
 
 def r28_4(ctx):
-    """HP/DHP insert paths: a colliding slot is expanded only while hash bits remain, and the operation gives up ('exhausted') only when the path
+    """insert / update paths: a colliding slot is expanded only while hash bits remain (HP/DHP; RCU where it consults the splitter at all), and the operation gives up ('exhausted') only when the path
     proved that no bits remain (eos(), rest_count() == 0, or a helper whose return expression means exactly that)"""
     n = 0
     for F in ctx.db.funcs.values():
         if not re.match(r"cds::intrusive::FeldmanHashSet::(insert|do_update)$", F.q):
             continue
-        if not Q.calls_in(F, r"::expand_slot$") or F.gc_kind() not in ("HP", "DHP"):
-            # (the RCU specialisation never consults eos(): it relies on distinct hashes diverging before the bits run out,
-            #  which is what the property itself states - nothing to check there)
+        if not Q.calls_in(F, r"::expand_slot$"):
             continue
+        # the RCU specialisation does not consult eos() before expanding: it relies on distinct hashes diverging before the bits run out, which
+        # is what the property itself states - an unguarded expansion is not reported there.  Every decision that *does* consult the splitter
+        # is judged the same way for all three schemes.
+        strict = F.gc_kind() in ("HP", "DHP")
         ps = PathSim(F, bound=4096).run()
         ctx.paths += len(ps)
         for p in ps:
@@ -269,6 +271,8 @@ def r28_4(ctx):
                     guarded = True
             has_guard = guard_node is not None
             for e in ex:
+                if not strict and not has_guard:
+                    continue
                 n += 1
                 ctx.check(meaning == "remain", "R28.4", F, "a colliding slot is expanded only on a path that established that hash bits remain", e.node,
                           detail="the guarding decision means %r. %s" % (meaning, R), sig="expand-not-eos")
